@@ -135,6 +135,21 @@ Row :: struct { t: type, n: i32 };
 schema :: comptime { Row.[Row.{ t = Sb, n = %(a)d }, Row.{ t = Sc, n = %(b)d }, Row.{ t = Sa, n = %(c)d }, Row.{ t = [3]Sa, n = 4 }] };
 main :: () -> i32 { n : i32 = 0; if schema[0].t == Sb { n = n + 1; } if schema[2].t == Sa { n = n + 2; } n + schema[1].n }
 """),
+    # a variant cast to its enum inside a comptime block: the discriminant is the last byte of
+    # the value, which sits at the end of a stack slot of the JIT-compiled function
+    ("variant_enum_tail", """
+width :: %(a)d;
+height :: 2;
+depth :: 3;
+count :: 4;
+Shape :: enum { Empty, Bytes: [17]u8 };
+first : Shape : comptime { Shape.Empty };
+other :: comptime { %(b)d };
+main :: () -> i32 {
+    v :: comptime { x : ?Shape = first; x };
+    %(c)d
+}
+"""),
     ("tuple_like", """
 Pair :: struct { k: u8, v: [3]u16, last: u8 };
 mk :: (n: u16) -> Pair { Pair.{ k = %(c)d, v = u16.[n, n + 1, n + 2], last = 7 } }
@@ -393,8 +408,10 @@ def random_world(rnd):
     if on(0.3):
         w["via_ldso"] = True
         dims.append("via_ldso")
-    if on(0.4):
-        w["env_pad"] = rnd.choice([16, 256, 4096, 40000])
+    if on(0.5):
+        # every 16-byte step: the alignment of the compiler's stack frames (mod 256 and beyond)
+        # is a function of the size of the environment
+        w["env_pad"] = rnd.choice([16 * rnd.randint(1, 255), 16 * rnd.randint(1, 255), 4096, 40000])
         dims.append("env_pad")
     if on(0.35):
         w["hole_brk"] = rnd.choice([4096, 1 << 16, 1 << 20, 37 << 20])
@@ -672,6 +689,26 @@ def task(t):
         r["discarded"] = "reference-timeout"
         return r
     if ref["exit"] not in (0, 1):
+        # The compiler crashed in the reference world. If it crashes in every world that is a
+        # matter for other properties (the program is discarded); if some other world gets
+        # through, the outcome depends on the world - which is what this check is about.
+        for pad in (128, 64, 32, 208):
+            w2 = boxmod.world(env_pad=pad)
+            got, _ = run_case(bx, files, entry, w2, {"kind": "clean"}, None)
+            r["runs"] += 1
+            if got["exit"] in (0, 1):
+                r["violations"].append({"diff": differences(ref, got, False, False), "world": w2,
+                                        "dims": ["env_pad"], "history": {"kind": "clean"},
+                                        "import_permuted": False, "permuted_text": None,
+                                        "offsets": None,
+                                        "ref_stdout": ref["stdout"][-1500:], "got_stdout": got["stdout"][-1500:],
+                                        "ref_exit": ref["exit"], "got_exit": got["exit"],
+                                        "got_stderr": got["stderr"][-600:],
+                                        "note": "the compiler crashes in the reference world and not in this one"})
+                r["files"] = files
+                r["entry"] = entry
+                r["needs_core"] = needs_core
+                return r
         r["discarded"] = "reference-crashed-compiler"
         return r
     ref_invalid = ref["exit"] != 0
